@@ -129,6 +129,8 @@ def shapes(fmt):
     # whole numbers with a sign among the metadata (the Excel reader returns every number as a float: listed finding)
     if fmt != 'excel':
         yield "shape:metadata_negative_integer", pygaps.PointIsotherm(pressure=[0.1, 0.2, 0.4], loading=[1.0, 1.5, 2.0], cycle=-5, offset=-2.5, **meta)
+    # values that use all eight documented decimals at magnitudes above one (eight decimals are not eight significant digits)
+    yield "shape:eight_decimals_above_one", pygaps.PointIsotherm(pressure=[1.23456789, 12.3456789, 123.456789], loading=[0.12345678, 1.12345678, 11.12345678], **meta)
     # a table with its own names for the pressure and loading columns
     own = pandas.DataFrame({'p_bar': [0.1, 0.2, 0.4], 'uptake': [1.0, 1.5, 2.0], 'dose': [3.0, 4.0, 5.0]})
     if fmt != 'aif':  # (AIF names its pressure and amount columns itself)
@@ -137,6 +139,10 @@ def shapes(fmt):
     import pygaps.modelling as pgm
     bare = pgm.get_isotherm_model('Langmuir', parameters={'K': 2.0, 'n_m': 5.0})
     yield "shape:model_without_ranges", pygaps.ModelIsotherm(model=bare, **meta)
+    # an exact fit: fit error exactly 0, ranges starting at exactly 0
+    exact = pgm.get_isotherm_model('Henry', parameters={'K': 2.0})
+    exact.pressure_range, exact.loading_range, exact.rmse = (0.0, 1.5), (0.0, 3.0), 0.0  # (as a fit leaves them: set on the object)
+    yield "shape:model_fit_error_exactly_zero", pygaps.ModelIsotherm(model=exact, **meta)
     # a table with repeated row labels (pandas.concat of two measurements), branch given and guessed
     a = pandas.DataFrame({'pressure': [0.1, 0.2, 0.3], 'loading': [1.0, 2.0, 2.5]})
     for br in ('ads', 'guess'):
@@ -263,9 +269,9 @@ def compare(a, b, fmt):
         same_num = lambda u, v: len(u) == len(v) and all((x == y) or (x != x and y != y) for x, y in zip(map(float, u), map(float, v)))  # nan is nan
         if not same_num(ma.pressure_range, mb.pressure_range) or not same_num(ma.loading_range, mb.loading_range):
             diffs.append(f"ranges {ma.pressure_range, ma.loading_range} -> {mb.pressure_range, mb.loading_range}")
+        if not same_num([ma.rmse], [mb.rmse]) and (fmt == 'json' or abs(float(ma.rmse) - float(mb.rmse)) > 1e-8 or (ma.rmse == ma.rmse) != (mb.rmse == mb.rmse)):
+            diffs.append(f"rmse {ma.rmse} -> {mb.rmse}")
         if fmt == 'json':
-            if not same_num([ma.rmse], [mb.rmse]):
-                diffs.append(f"rmse {ma.rmse} -> {mb.rmse}")
             # every prediction of the model
             try:
                 if ma.calculates == 'loading':
